@@ -25,11 +25,19 @@ static int mon_print0(void) { return 0; }
 static void verif_exit(int code) { g_exit_code = code; VASSUME(0); }
 #define exit(c) verif_exit(c)
 
+#define ConstLongInt(a, b, c) verif_ConstLongInt((a), (b), (c))
+#ifdef VERIF_FILTERLIST /* ASCII stand-ins of strutil.c for the one-id argument text */
+size_t strmaxcpy(char* dest, char const* src, size_t Max) { size_t n = 0; if (!Max) return 0; while (n < 3 && src[n] && n + 1 < Max) { dest[n] = src[n]; n++; } dest[n] = 0; return n; }
+char* strmov(char* pDest, char const* pSrc) { int n = 0; while (n < 3 && pSrc[n]) { pDest[n] = pSrc[n]; n++; } pDest[n] = 0; return pDest; }
+#endif
+LargeInt verif_ConstLongInt(char const* inp, Boolean* pErr, LongInt Base);
 #include "toolutils.c" /* the real /repo/toolutils.c */
+#undef ConstLongInt
 #undef exit
 #undef fprintf
 #undef printf
 
+#define NFILTER ((int)(sizeof(FilterBytes) / sizeof(FilterBytes[0])))
 static void mk_file(int i) {
     VND(gf[i].len, long); VND(gf[i].pos, long); VND(gf[i].w_off, long); VND(gf[i].w_val, uchar);
     VASSUME(gf[i].len >= 0 && gf[i].len <= 0x7fffffff && gf[i].pos >= 0 && gf[i].pos <= gf[i].len && gf[i].w_off >= 0);
@@ -45,10 +53,10 @@ static void mk_common(void) {
 void h_FilterOK(void) {
     Byte h; Boolean r; int i;
     VND(DoFilter, uchar); VND(FilterCnt, int); VND(h, uchar);
-    VASSUME(DoFilter <= 1 && FilterCnt >= 0 && FilterCnt <= 100);
-    for (i = 0; i < 100; i++) VND(FilterBytes[i], uchar);
+    VASSUME(DoFilter <= 1 && FilterCnt >= 0 && FilterCnt <= NFILTER);
+    for (i = 0; i < NFILTER; i++) VND(FilterBytes[i], uchar);
     VND(gk_idx, uint);
-    VASSUME(gk_idx < 100);
+    VASSUME(gk_idx < NFILTER);
     r = FilterOK(h);
     VPOST(DoFilter || r, "C07: without -f every record passes");
     VPOST(!(DoFilter && gk_idx < (unsigned)FilterCnt && FilterBytes[gk_idx] == h) || r, "C07: a listed CPU id passes the filter");
@@ -60,8 +68,8 @@ void h_FilterOK_reject(void) {
     Byte h; Boolean r; int i;
     DoFilter = True;
     VND(FilterCnt, int); VND(h, uchar);
-    VASSUME(FilterCnt >= 0 && FilterCnt <= 100);
-    for (i = 0; i < 100; i++) { VND(FilterBytes[i], uchar); VASSUME(FilterBytes[i] != h); }
+    VASSUME(FilterCnt >= 0 && FilterCnt <= NFILTER);
+    for (i = 0; i < NFILTER; i++) { VND(FilterBytes[i], uchar); VASSUME(FilterBytes[i] != h); }
     gk_idx = 0;
     r = FilterOK(h);
     VPOST(!r, "C07: an id that is not listed is rejected");
@@ -130,5 +138,36 @@ void h_WriteRecordHeader(void) {
         VPOST(gf[1].w_off != p0 + 2 || gf[1].w_val == seg, "C07: long header byte 2 = segment");
         VPOST(gf[1].w_off != p0 + 3 || gf[1].w_val == gran, "C07: long header byte 3 = granularity");
         VREACH("long");
+    }
+}
+
+/* -f list maintenance (CMD_FilterList), one id per call: for every state of the list (any fill level up to the array size, any
+ * contents) the update stays inside the array; a new id is entered once, a known one is not duplicated, a negated one is removed;
+ * a full list refuses further ids instead of writing behind the array (p2bin -f with 130 ids used to crash). */
+static long long g_cl_val; static int g_cl_ok;
+LargeInt verif_ConstLongInt(char const* inp, Boolean* pErr, LongInt Base) { (void)inp; (void)Base; *pErr = (Boolean)(g_cl_ok != 0); return g_cl_val; }
+void h_CMD_FilterList(void) {
+    char arg[2]; Boolean neg; int i, cnt0, present, p, k; CMDResult r; Byte id, wk, last;
+    arg[0] = '7'; arg[1] = 0;
+    VND(FilterCnt, int); VASSUME(FilterCnt >= 0 && FilterCnt <= NFILTER);
+    for (i = 0; i < NFILTER; i++) VND(FilterBytes[i], uchar);
+    VND(neg, uchar); VASSUME(neg <= 1); VND(g_cl_val, i64); g_cl_ok = 1;
+    id = (Byte)g_cl_val; cnt0 = FilterCnt;
+    /* is the id in the list?  chosen, then imposed on the list (cheaper than computing it from 256 symbolic entries) */
+    VND(present, int); VND(p, int);
+    if (present) { VASSUME(p >= 0 && p < cnt0 && FilterBytes[p] == id); gk_idx = (unsigned)p; }
+    else { for (i = 0; i < NFILTER; i++) VASSUME(!(i < cnt0) || FilterBytes[i] != id); VND(gk_idx, uint); }
+    VND(k, int); VASSUME(k >= 0 && k < NFILTER); wk = FilterBytes[k]; last = cnt0 > 0 ? FilterBytes[cnt0 - 1] : 0;      /* witness entry */
+    r = CMD_FilterList(neg, arg);
+    VPOST(FilterCnt >= 0 && FilterCnt <= NFILTER, "C03: the -f list never grows beyond its array");
+    if (!neg && !present && cnt0 < NFILTER) { VPOST(r == CMDArg && FilterCnt == cnt0 + 1 && FilterBytes[cnt0] == id, "C07: a new CPU id is appended to the -f list"); VREACH("added"); }
+    if (!neg && !present && cnt0 == NFILTER) { VPOST(r == CMDErr && FilterCnt == cnt0, "C03: a full -f list refuses further ids"); VREACH("full"); }
+    if (!neg && present) { VPOST(r == CMDArg && FilterCnt == cnt0, "C07: a CPU id already in the -f list is not entered twice"); VREACH("dup"); }
+    if (neg && !present) VPOST(FilterCnt == cnt0, "C07: removing an id that is not listed changes nothing");
+    if (neg && present) { VPOST(FilterCnt == cnt0 - 1, "C07: -f with a negated id removes one entry"); VREACH("removed"); }
+    if (r == CMDArg) VPOST((DoFilter != 0) == (FilterCnt != 0), "C07: filtering is active iff the list is not empty");
+    if (k < cnt0) {
+        if (!neg || !present) VPOST(FilterBytes[k] == wk, "C07: the other ids stay in the -f list");
+        else VPOST(wk == id || k == cnt0 - 1 || FilterBytes[k] == wk, "C07: removing one id keeps the others (the last entry moves into the gap)");
     }
 }
